@@ -96,6 +96,8 @@ def shard_pairs(s, ns, tier, seed):
             part.n += 1
             if w is None:
                 part.keys.add(core.h64(('pair', i, j)))
+                if len(part.samples) < 1 and n > 1:
+                    part.samples.append({'class pair': [tab[i].__name__, tab[j].__name__], 'assignments of constrained bits enumerated': n, 'overlap': None})
                 continue
             # confirm on the real code, with the unconstrained bits at 0 and at 1
             fills = [w]
@@ -235,7 +237,7 @@ def word_case(part, P, w, lname, rel, learn):
             return
     else:
         part.counters['reference_rejects'] += 1
-    part.ok(w, outcome=(cname, base))
+    part.ok(w, outcome=(cname, base), sample={'word': '%#010x' % w, 'class': cname, 'text': txt.strip(), 'llvm': lname} if len(part.samples) < 3 else None)
 
 
 def diff_fields(a, b):
@@ -282,8 +284,6 @@ def run(tier, seed):
     pw = core.run_sharded(shard_words, (tier, seed), nshards=core.NPROC * 4)
     part.counters['structured_words'] = pw.n
     part.merge(pw)
-    part.samples = [{'word': '0x7d4a5214', 'class': 'ppc_add', 'text': 'ADD R10, R10, R10', 'llvm': 'ADD4'},
-                    {'pair': ['ppc_mtspr', 'ppc_mfsr'], 'decided_by': 'all assignments of the constrained bits'}]
     rule = ('(a) every pair of the %d instruction classes (%d pairs): per-field acceptance sets obtained from the real mask check() methods '
             '(each verified to read only its own bits); every assignment of the union of constrained bits enumerated (numpy) - a complete decision '
             'over all 2^32 words; any overlap is re-checked with the real class check() with free bits all-0 and all-1. (b) structured words: 64 '
